@@ -75,6 +75,18 @@ CHECKS = {
             "24 closed-form transformer kinds over tagged panels/series (equal and unequal length, Series/array cells) "
             "x each transformer's option grid, against plain-loop references written from the docstrings",
             "4/C14", TRUST + "19 undocumented behaviours accepted as the code does them (listed in evidence assumptions)."),
+    "C09": ("model_checking", "E2", E2 + "; hand-composed denotation of the parts + recording doubles",
+            "for every composite program (ensembles over all member subsets x aggregates, pipelines over all "
+            "transformer sequences of length <=2, multiplexers, stacking, depth-2 nestings) x horizon x call "
+            "history, the real composite is compared with the composition of independently built parts, "
+            "including everything the inner recording estimators receive in fit and in update",
+            "4/C09", TRUST + "Where the hand composition itself raises, only 'composite raises too' is judged."),
+    "C13": ("model_checking", "E2", E2 + "; every stretch offset after every update; +7 shift twin",
+            "per transformer configuration x training length x update schedule: after fit and after each update "
+            "every stretch (all start offsets 0..m+4, lengths 1..5) is transformed and inverse-transformed on the "
+            "real object; round trip, index preservation, fit_transform equivalence, seasonal phase relative to "
+            "the training series, and equality with a +7 shifted twin",
+            "4/C13", TRUST + "ACF/PACF are lag-indexed: values only under the shift."),
 }
 
 PENDING_REASON = "check not built yet in this round; planned in DESIGN.md section 4 (engine listed there)"
